@@ -800,7 +800,7 @@ def judge_c06(case, lab):
     g = _fresh(case, lab)
     if g.log:
         res.bad("construction-runs", "building the graph ran %s" % [(e[0], e[1]) for e in g.log][:4])
-    has_callables = any(nd["k"] in ("fnapp", "ds", "apply", "bind") for nd in case["nodes"])
+    has_callables = any(nd["k"] in ("fnapp", "ds", "apply", "bind", "pred") for nd in case["nodes"])
     res.nontrivial = has_callables and len(visited) < len(case["nodes"])
     for what in ("evaluate", "validate", "keys", "explain"):
         if what != "evaluate" and not a["eval"]["ok"]:
